@@ -60,10 +60,16 @@ void* operator new[](size_t n)
         throw std::bad_alloc();
     return p;
 }
-void operator delete(void* p) noexcept { free(p); }
-void operator delete[](void* p) noexcept { free(p); }
-void operator delete(void* p, size_t) noexcept { free(p); }
-void operator delete[](void* p, size_t) noexcept { free(p); }
+static inline void vf_free(void* p) noexcept
+{
+    if (p)
+        sch_alloc_point(); // deallocations are footholds too (e.g. a clear() that runs unlocked)
+    free(p);
+}
+void operator delete(void* p) noexcept { vf_free(p); }
+void operator delete[](void* p) noexcept { vf_free(p); }
+void operator delete(void* p, size_t) noexcept { vf_free(p); }
+void operator delete[](void* p, size_t) noexcept { vf_free(p); }
 
 static double wall()
 {
